@@ -1,6 +1,6 @@
 """Sidecar contracts for WFRT/verif, one module per repository module.  Importing a module registers its
 obligations in pyvc.framework.REGISTRY.  The repository files are not touched."""
-MODULES = ["contracts.interval", "contracts.util", "contracts.metric_contingency", "contracts.data", "contracts.metric_det", "contracts.metric_field", "contracts.metric_prob", "contracts.aggregator", "contracts.axis", "contracts.driver", "contracts.output_appearance", "contracts.output_table", "contracts.input_text"]
+MODULES = ["contracts.interval", "contracts.util", "contracts.metric_contingency", "contracts.data", "contracts.metric_det", "contracts.metric_field", "contracts.metric_prob", "contracts.aggregator", "contracts.axis", "contracts.driver", "contracts.output_appearance", "contracts.output_table", "contracts.input_text", "contracts.input_netcdf"]
 
 
 def load_all():
